@@ -337,6 +337,147 @@ fn quat_views<T: Tag + cgmath::BaseNum>(w: &mut W, salt: u64) {
     w.eq("IndexMut", m.v.z, u[2]);
 }
 
+// ---------------------------------------------------------------- by-value conversions and re-shaping
+// (safe code on the unchanged tree; they are in the workload because a "faster" rewrite of any of
+// them with raw reads, MaybeUninit or wide loads is exactly what this engine exists to see)
+macro_rules! by_value {
+    ($fname:ident, $V:ident, $n:expr, ($($f:ident),+), $Tup:ty, ($($ti:tt),+)) => {
+        fn $fname<T: Tag + cgmath::BaseNum>(w: &mut W, salt: u64) {
+            const N: usize = $n;
+            let t: [T; N] = std::array::from_fn(|i| T::tag(i, salt));
+            let u: [T; N] = std::array::from_fn(|i| T::tag(i + 20, salt));
+            let name = format!("{}<{}>", stringify!($V), T::NAME);
+            w.step(&format!("{name} by-value From/Into array and tuple, from_value, map, zip"));
+            let v: $V<T> = t.into();
+            w.eq("From<[T;n]>", [$(v.$f),+], t);
+            let a: [T; N] = v.into();
+            w.eq("Into<[T;n]>", a, t);
+            let tv: $Tup = ($(t[$ti]),+,);
+            let v2: $V<T> = tv.into();
+            w.eq("From<tuple>", [$(v2.$f),+], t);
+            let back: $Tup = v2.into();
+            w.eq("Into<tuple>", [$(back.$ti),+], t);
+            let fv = $V::from_value(t[0]);
+            w.eq("from_value", [$(fv.$f),+], [t[0]; N]);
+            let mut k = 0usize;
+            let mapped = v.map(|x| { k += 1; (x, k) });
+            w.eq("map visits the components in order", [$(mapped.$f),+], std::array::from_fn(|i| (t[i], i + 1)));
+            let other: $V<T> = u.into();
+            let zipped = v.zip(other, |a, b| (a, b));
+            w.eq("zip", [$(zipped.$f),+], std::array::from_fn(|i| (t[i], u[i])));
+        }
+    };
+}
+by_value!(bv1, Vector1, 1, (x), (T,), (0));
+by_value!(bv2, Vector2, 2, (x, y), (T, T), (0, 1));
+by_value!(bv3, Vector3, 3, (x, y, z), (T, T, T), (0, 1, 2));
+by_value!(bv4, Vector4, 4, (x, y, z, w), (T, T, T, T), (0, 1, 2, 3));
+by_value!(bp1, Point1, 1, (x), (T,), (0));
+by_value!(bp2, Point2, 2, (x, y), (T, T), (0, 1));
+by_value!(bp3, Point3, 3, (x, y, z), (T, T, T), (0, 1, 2));
+
+fn reshape<T: Tag + cgmath::BaseNum>(w: &mut W, salt: u64) {
+    let t: [T; 4] = std::array::from_fn(|i| T::tag(i, salt));
+    w.step(&format!("Vector<{}> extend / truncate / truncate_n, Quaternion and matrix by-value conversions", T::NAME));
+    let v2 = Vector2::new(t[0], t[1]);
+    let v3 = v2.extend(t[2]);
+    w.eq("Vector2::extend", [v3.x, v3.y, v3.z], [t[0], t[1], t[2]]);
+    let v4 = v3.extend(t[3]);
+    w.eq("Vector3::extend", [v4.x, v4.y, v4.z, v4.w], t);
+    let b3 = v4.truncate();
+    w.eq("Vector4::truncate", [b3.x, b3.y, b3.z], [t[0], t[1], t[2]]);
+    let b2 = v3.truncate();
+    w.eq("Vector3::truncate", [b2.x, b2.y], [t[0], t[1]]);
+    for n in 0..4usize {
+        let r = v4.truncate_n(n as isize);
+        let e: Vec<T> = (0..4).filter(|&i| i != n).map(|i| t[i]).collect();
+        w.eq("Vector4::truncate_n", vec![r.x, r.y, r.z], e);
+    }
+    // quaternion: x, y, z, s order in arrays and tuples
+    let q: Quaternion<T> = t.into();
+    w.eq("Quaternion From<[T;4]>", [q.v.x, q.v.y, q.v.z, q.s], t);
+    let a: [T; 4] = q.into();
+    w.eq("Quaternion Into<[T;4]>", a, t);
+    let q: Quaternion<T> = (t[0], t[1], t[2], t[3]).into();
+    w.eq("Quaternion From<tuple>", [q.v.x, q.v.y, q.v.z, q.s], t);
+    let tp: (T, T, T, T) = q.into();
+    w.eq("Quaternion Into<tuple>", [tp.0, tp.1, tp.2, tp.3], t);
+    let q = Quaternion::from_sv(t[3], Vector3::new(t[0], t[1], t[2]));
+    w.eq("Quaternion::from_sv", [q.v.x, q.v.y, q.v.z, q.s], t);
+    // matrices by value
+    let f: [T; 16] = std::array::from_fn(|i| T::tag(i, salt));
+    let n2: [[T; 2]; 2] = [[f[0], f[1]], [f[2], f[3]]];
+    let m2: Matrix2<T> = n2.into();
+    let o2: [[T; 2]; 2] = m2.into();
+    w.eq("Matrix2 From/Into nested", o2, n2);
+    let n3: [[T; 3]; 3] = std::array::from_fn(|c| std::array::from_fn(|r| f[c * 3 + r]));
+    let m3: Matrix3<T> = n3.into();
+    let o3: [[T; 3]; 3] = m3.into();
+    w.eq("Matrix3 From/Into nested", o3, n3);
+    let n4: [[T; 4]; 4] = std::array::from_fn(|c| std::array::from_fn(|r| f[c * 4 + r]));
+    let m4: Matrix4<T> = n4.into();
+    let o4: [[T; 4]; 4] = m4.into();
+    w.eq("Matrix4 From/Into nested", o4, n4);
+    let c4 = Matrix4::from_cols(m4.x, m4.y, m4.z, m4.w);
+    w.eq("Matrix4::from_cols", c4, m4);
+}
+
+// ---------------------------------------------------------------- out-of-range indices must panic
+// (all of these are safe functions: with an index the type does not have, panicking is the only
+// defined behaviour; a version that drops the bounds check shows here as undefined behaviour under
+// Miri / AddressSanitizer, or as a missing panic)
+fn must_panic<R>(w: &mut W, what: &str, f: impl FnOnce() -> R) {
+    w.views += 1;
+    let r = std::panic::catch_unwind(std::panic::AssertUnwindSafe(f));
+    if r.is_ok() {
+        println!("MISMATCH {what}: expected a panic for an out-of-range index, the call returned");
+    }
+}
+fn out_of_range<T: Tag + cgmath::BaseFloat>(w: &mut W, salt: u64) {
+    let f: [T; 16] = std::array::from_fn(|i| T::tag(i, salt));
+    w.step(&format!("out-of-range indices panic <{}>", T::NAME));
+    let v2 = Vector2::new(f[0], f[1]);
+    let v3 = Vector3::new(f[0], f[1], f[2]);
+    let v4 = Vector4::new(f[0], f[1], f[2], f[3]);
+    let p3 = Point3::new(f[0], f[1], f[2]);
+    let q = Quaternion::new(f[3], f[0], f[1], f[2]);
+    must_panic(w, "Vector2[2]", || v2[2]);
+    must_panic(w, "Vector3[3]", || v3[3]);
+    must_panic(w, "Vector4[4]", || v4[4]);
+    must_panic(w, "Point3[3]", || p3[3]);
+    must_panic(w, "Quaternion[4]", || q[4]);
+    must_panic(w, "Vector4[usize::MAX]", || v4[usize::MAX]);
+    must_panic(w, "Vector3 swap_elements(0,3)", || { let mut x = v3; x.swap_elements(0, 3); x });
+    must_panic(w, "Vector4 swap_elements(4,1)", || { let mut x = v4; x.swap_elements(4, 1); x });
+    must_panic(w, "Point3 swap_elements(1,3)", || { let mut x = p3; x.swap_elements(1, 3); x });
+    must_panic(w, "Vector4::truncate_n(4)", || v4.truncate_n(4));
+    must_panic(w, "Vector4::truncate_n(-1)", || v4.truncate_n(-1));
+    must_panic(w, "Vector4::truncate_n(isize::MIN)", || v4.truncate_n(isize::MIN));
+    macro_rules! mat {
+        ($M:ident, $n:expr, $nn:expr) => {{
+            let flat: [T; $nn] = std::array::from_fn(|i| f[i]);
+            let m: $M<T> = *<&$M<T>>::from(&flat);
+            let name = stringify!($M);
+            for bad in [$n, $n + 1, $nn, usize::MAX] {
+                must_panic(w, &format!("{name}[{bad}]"), || m[bad]);
+                must_panic(w, &format!("{name}[0][{bad}]"), || m[0][bad]);
+                must_panic(w, &format!("{name} write [{bad}][0]"), || { let mut x = m; x[bad][0] = f[0]; x });
+                must_panic(w, &format!("{name}::swap_rows(0,{bad})"), || { let mut x = m; x.swap_rows(0, bad); x });
+                must_panic(w, &format!("{name}::swap_rows({bad},1)"), || { let mut x = m; x.swap_rows(bad, 1); x });
+                must_panic(w, &format!("{name}::swap_columns(0,{bad})"), || { let mut x = m; x.swap_columns(0, bad); x });
+                must_panic(w, &format!("{name}::swap_columns({bad},1)"), || { let mut x = m; x.swap_columns(bad, 1); x });
+                must_panic(w, &format!("{name}::swap_elements((0,0),({bad},0))"), || { let mut x = m; x.swap_elements((0, 0), (bad, 0)); x });
+                must_panic(w, &format!("{name}::swap_elements((0,{bad}),(1,1))"), || { let mut x = m; x.swap_elements((0, bad), (1, 1)); x });
+                must_panic(w, &format!("{name}::replace_col({bad},..)"), || { let mut x = m; let c = m[0]; x.replace_col(bad, c) });
+                must_panic(w, &format!("{name}::row({bad})"), || m.row(bad));
+            }
+        }};
+    }
+    mat!(Matrix2, 2, 4);
+    mat!(Matrix3, 3, 9);
+    mat!(Matrix4, 4, 16);
+}
+
 fn any_type<T: Tag>(w: &mut W, salt: u64) {
     vv1::<T>(w, salt);
     vv2::<T>(w, salt);
@@ -361,7 +502,20 @@ fn point_arrays<T: Tag + cgmath::BaseNum>(w: &mut W, salt: u64, eq: bool) {
     ap3::<T>(w, salt, eq);
 }
 
+fn for_by_value<T: Tag + cgmath::BaseNum>(w: &mut W, salt: u64) {
+    bv1::<T>(w, salt);
+    bv2::<T>(w, salt);
+    bv3::<T>(w, salt);
+    bv4::<T>(w, salt);
+    bp1::<T>(w, salt);
+    bp2::<T>(w, salt);
+    bp3::<T>(w, salt);
+    reshape::<T>(w, salt);
+}
+
 fn main() {
+    // expected panics (out-of-range indices) are part of the workload: keep them quiet
+    std::panic::set_hook(Box::new(|_| {}));
     let args: Vec<String> = std::env::args().collect();
     let thorough = args.get(1).map(|s| s == "thorough").unwrap_or(false);
     let seed: u64 = args.get(2).and_then(|s| s.parse().ok()).unwrap_or(1);
@@ -400,6 +554,12 @@ fn main() {
         mf4::<f64>(&mut w, salt, false);
         det_invert::<f32>(&mut w);
         det_invert::<f64>(&mut w);
+        for_by_value::<u8>(&mut w, salt);
+        for_by_value::<i16>(&mut w, salt);
+        for_by_value::<f32>(&mut w, salt);
+        for_by_value::<f64>(&mut w, salt);
+        out_of_range::<f32>(&mut w, salt);
+        out_of_range::<f64>(&mut w, salt);
     }
     // ... equal-index swaps last (all index values are part of the property)
     let salt = salts[0];
